@@ -20,7 +20,7 @@ RULE = ("ordered lists of 0..12 well-formed capability records (id in every Capa
         "(1) raw_capabilities and every public property of CapabilitiesResponse(L) equal those of the in-order merge of the "
         "single-record responses; (2) through get_capabilities(): a client of a device serving L in one page and a client of a "
         "device serving L[:k] with the more-flag and L[k:] as additional page expose equal capability attributes, the second "
-        "client sent exactly one additional-page request and the first none; optionally both devices are V3, hang up after every answer (FIN / RST, seen by the client's loop after or with the answer), or lose the first transmission of a request while the host's wall clock jumps (-5 s .. +2 h). Non-trivial: the list contains an unknown / "
+        "client sent exactly one additional-page request and the first none; optionally both devices are V3, hang up after every answer (FIN / RST, seen by the client's loop after or with the answer), or lose the first transmission of a request while the host's wall clock jumps (-5 s .. +2 h). (3) history independence: a fixed set of canonical responses parses to the same result at the end of each process's run as at its start. Non-trivial: the list contains an unknown / "
         "zero-size / odd-size-known / undersized-TEMPERATURES record followed by a known record, or 0 < k < n. Distinct by (L, k).")
 ASSUMPTIONS = ["trailer shapes limited to those seen in captured responses (none, [more, x], [x])"]
 
@@ -95,7 +95,8 @@ def check_case(case: dict):
             def on_data(dev_, conn, frame):
                 # the first transmission of the n-th request is lost; meanwhile the host's wall clock jumps (suspend/resume)
                 seen["n"] += 1
-                if peer.get("lose") and seen["n"] == peer["lose"]:
+                lose = peer.get("lose") or []
+                if seen["n"] in (lose if isinstance(lose, list) else [lose]):
                     if peer.get("jump"):
                         loop.call_later(0.5, lambda: setattr(loop, "wall_skew", loop.wall_skew + peer["jump"]))
                     return ("drop",)
@@ -124,7 +125,31 @@ def check_case(case: dict):
     return None
 
 
+ODD_LISTS = [[[TEMPERATURES, "22" * n]] for n in range(1, 6)] + [[[0x9999, "05"]], [[0x9999, "05"], [0x9999, "06"]], [[0x0212, ""]], [[0x1234, "0102"], [0x1234, "0102"]],
+                                                                  [[TEMPERATURES, "2222"], [TEMPERATURES, "223c223c223c"]], [[0x0214, "0102"]], [[0x00FF, "01"]]]
+
+
+def check_history(_case=None):
+    """A short parsing history in this process: canonical responses, then odd ones (undersized, unknown, repeated, zero-size), then the
+    canonical ones again - which must parse exactly as before."""
+    from msmart.device.AC.command import Response
+    before = _canon_snapshot()
+    for L in ODD_LISTS + ODD_LISTS:
+        try:
+            Response.construct(_frame(L, b""))
+        except Exception as e:
+            return (f"history/raises/{type(e).__name__}", f"well-formed records {L} raised {e!r}")
+    now = _canon_snapshot()
+    for k in before:
+        if now[k] != before[k]:
+            d = {a: (before[k][0].get(a), now[k][0].get(a)) for a in set(before[k][0]) | set(now[k][0]) if before[k][0].get(a) != now[k][0].get(a)}
+            return ("history/parse-changed", f"records {k} parsed differently after a history of odd records than before it (before, after): {d or 'public properties differ'}")
+    return None
+
+
 def replay(ctx, case):
+    if "history" in case:
+        return check_history(case)
     return check_case(case)
 
 
@@ -162,7 +187,41 @@ def _run_one(ctx, case):
     return check_case(case)
 
 
+def _canon_snapshot() -> dict:
+    """What a fixed set of well-formed responses parses to right now (parsing is a pure function of the frame: the answer may not
+    depend on what this process has parsed before)."""
+    from msmart.device.AC.command import Response
+    out = {}
+    canon = [[[cid, "01"]] for cid in KNOWN_IDS if cid != TEMPERATURES] + [[[TEMPERATURES, "22 3c 22 3c 22 3c".replace(" ", "")]], [[TEMPERATURES, "20403e223c2201"]],
+                                                                            [[0x1234, "0102"]], [[0x0212, "01"], [TEMPERATURES, "2a3a2a3a2a3a00"], [0x0214, "01"], [0x9999, "05"], [0x0216, "01"]]]
+    for L in canon:
+        r = Response.construct(_frame(L, b""))
+        out[repr(L)] = (dict(r.raw_capabilities), _props(r))
+    return out
+
+
 def run(ctx) -> None:
+    baseline = _canon_snapshot()
+    try:
+        _run(ctx)
+    finally:
+        pass
+    # history independence: after everything this process has parsed (undersized, unknown, repeated and odd records included), the
+    # canonical responses still parse to what they parsed to at the start
+    def again(_case):
+        now = _canon_snapshot()
+        for k in baseline:
+            if now[k] != baseline[k]:
+                d = {a: (baseline[k][0].get(a), now[k][0].get(a)) for a in set(baseline[k][0]) | set(now[k][0]) if baseline[k][0].get(a) != now[k][0].get(a)}
+                return ("history/parse-changed", f"records {k} parsed differently at the end of the run than at its start (first, now): {d or 'public properties differ'}")
+        return None
+    ctx.case(hash(("history", ctx.shard)), True, cls="history")
+    ctx.check({"history": "canonical responses re-parsed after the run", "shard": ctx.shard}, again)
+    ctx.check({"history": "canonical, odd, canonical"}, check_history)
+    ctx.sweep("history independence of the parser: canonical responses before / after the shard's run", 1, True)
+
+
+def _run(ctx) -> None:
     # deterministic part: every known id x every first value 0..255 as singleton followed by a sentinel record; sizes 0..10
     n = 0
     sentinel = [0x0212, "01"]
@@ -199,7 +258,9 @@ def run(ctx) -> None:
     recs = [[0x0212, "01"], [0x0214, "01"], [0x0216, "01"], [0x021F, "01"], [0x0048, "01"], [0x0215, "01"], [0x0210, "01"]]
     for version in (2, 3):
         for hangup in (None, "fin", "rst", "fin_same", "rst_same"):
-            for lose, jump in ((0, 0), (1, 0), (2, 0), (1, 30.0), (2, 30.0), (2, 7200.0), (2, -5.0)):
+            # (lists: which transmissions, counted over the whole call, are lost - e.g. [1, 2, 4]: the first request twice, the second once;
+            # every request still gets through within its own retry budget)
+            for lose, jump in ((0, 0), (1, 0), (2, 0), (1, 30.0), (2, 30.0), (2, 7200.0), (2, -5.0), ([1, 2, 4], 0), ([1, 3, 4], 0), ([1, 2, 4, 5], 0), ([2, 3], 0)):
                 for k in (0, 3, 7):
                     e += 1
                     if ctx.mine(e):
@@ -220,7 +281,7 @@ def run(ctx) -> None:
         "trailer": st.sampled_from(["", "", "0000", "0001", "00", "01"]),
         "trailer2": st.sampled_from(["", "0000", "00"]),
         "k": st.integers(0, 12), "x": st.integers(0, 255), "paging": st.booleans()},
-        optional={"peer": st.fixed_dictionaries({"version": st.sampled_from([2, 3]), "lose": st.sampled_from([0, 0, 1, 2]), "jump": st.sampled_from([0, 0, 30.0, 7200.0, -5.0])},
+        optional={"peer": st.fixed_dictionaries({"version": st.sampled_from([2, 3]), "lose": st.sampled_from([0, 0, 1, 2, [1, 2, 4], [1, 3, 4], [1, 2, 4, 5], [2, 3]]), "jump": st.sampled_from([0, 0, 30.0, 7200.0, -5.0])},
                                                 optional={"hangup": st.sampled_from(["fin", "rst", "fin_same", "rst_same"])})})
     ctx.hyp("lists", cases, lambda c: _run_one(ctx, c), ctx.n(3000, 480000))
     # the same capability id repeated with different values (a later record overrides an earlier one, also across the split)
